@@ -4,7 +4,7 @@ Vocabulary (see harness/shim_list.c, harness/shim_slist.c):
   new [o=k] [obs=sparse] | new_default [obs=sparse] | observe | destroy | destroy_cb | drop o=k | drop_cb o=k
   add v | add_first v | add_last v | add_at v idx=i
   add_all from=j | add_all_at from=j idx=i | splice from=j | splice_at from=j idx=i
-  remove v | remove_at idx=i | remove_first | remove_last | remove_all | remove_all_cb | replace_at v idx=i
+  remove v | remove_at idx=i | remove_first | remove_last | remove_all | remove_all_cb | replace_at v idx=i   (each [noout=1])
   get_first | get_last | get_at idx=i | size | contains v | contains_value v cmp=num|key | index_of v [cmp=num|key]
   reverse | filter_mut | foreach | to_array | reduce (list only)
   sort | sort_in_place cmp=num|key (list only)
@@ -27,9 +27,20 @@ def val(rng):
     r = rng.random()
     if r < 0.06:
         return 0                      # NULL element
-    if r < 0.55:
+    if r < 0.50:
         return rng.randint(1, 8)      # duplicates likely
+    if r < 0.62:
+        # CONVENTIONS Addendum 3: partners of the small values that differ from them by exactly 2^31, 2^32, 2^63, and
+        # values next to 2^64-1 (a comparison that truncates a difference to int / 32 bits calls them equal or
+        # orders them wrongly)
+        b = rng.randint(1, 8)
+        return rng.choice([b + 2**31, b + 2**32, b + 2**32, b + 2**63, b + 2**63 + 2**32, SIZE_MAX - b, SIZE_MAX, SIZE_MAX - 1,
+                           2**63, 2**63 - 1, 2**32, 2**31])
     return rng.randint(1, 99)
+
+
+NOOUT_OPS = {"remove", "remove_at", "remove_first", "remove_last", "replace_at", "it_remove", "it_replace", "dit_remove",
+             "dit_replace", "zit_remove", "zit_replace"}
 
 
 class Sim:
@@ -941,6 +952,9 @@ class LinkedGen:
                        for op in new]
             ops.extend(new)
         ops.append("destroy_cb" if rng.random() < 0.2 else "destroy")
+        # CONVENTIONS Addendum 3: the optional out-pointers are passed (default) or NULL (`noout=1`), in every focus
+        p_no = rng.choice([0.0, 0.15, 0.35, 1.0])
+        ops = [op + " noout=1" if (op.split()[0] in NOOUT_OPS and rng.random() < p_no) else op for op in ops]
         return ops
 
     # ------------------------------------------------------------------ small scope
@@ -969,6 +983,16 @@ class LinkedGen:
                 for s in singles:
                     out.append(base + [s, "destroy"])
                 out.append(base + ["destroy_cb"])
+            # (a2) elements that differ by exactly 2^31 / 2^32 / 2^63 and values next to 2^64-1: value-based operations must
+            # tell them apart (first occurrence from the head only)
+            big = [5, 5 + 2**32, 5 + 2**63, 5 + 2**31, SIZE_MAX, SIZE_MAX - 5, 5]
+            for n in range(2, 8):
+                base = build(big[:n])
+                for v in sorted(set(big)):
+                    for s_ in (f"remove {v}", f"contains {v}", f"contains_value {v} cmp=num", f"contains_value {v} cmp=key",
+                               (f"index_of {v} cmp=num" if self.dbl else f"index_of {v}")):
+                        out.append(base + [s_, "remove_first", f"contains {v}", "destroy"])
+                out.append(base + ["reverse", f"remove {5 + 2**32}", "remove 5", "get_first", "get_last", "destroy"])
             # (b) the four bulk operations: all positions x operand sizes
             for na in (0, 1, 2, 5):
                 for nb in (0, 1, 2, 5):
@@ -1112,6 +1136,11 @@ class LinkedGen:
                     if mi % 3 == 0:
                         mu2 = [m for m in muts[(mi + 5) % len(muts)] if "from=1" not in m and not m.startswith("zit") and "o=1" not in m]
                         out.append(base + [s1] + mu + mu2 + [s1, "add_last 1", sorts[-1], "reverse", sorts[0], "destroy"])
+            for vals in ([5 + 2**32, 5, 5 + 2**63, 4, SIZE_MAX, 6 + 2**31, 6], [SIZE_MAX, 2**63, 2**63 - 1, 2**32, 2**31, 1, 0],
+                         [7 + 2**32, 7, 7 + 2**32, 7]):
+                if self.dbl:
+                    out.append(build(vals) + ["sort_in_place cmp=num", "get_first", "get_last", "sort_in_place cmp=key", "destroy"])
+                out.append(build(vals) + ["sort", "get_first", "get_last", "reverse", "sort", "destroy"])
             L = 6 if quick else 8
             for n in range(0, L + 1):
                 for keys in itertools.product([1, 2, 3], repeat=n):
@@ -1122,6 +1151,8 @@ class LinkedGen:
                         out.append(build(vals) + ["sort", "add 5", "remove_last", "destroy"])
         if focus == "fault" or allf:
             out.append(["new fail=1", "destroy"])
+        # NULL out-pointers: every fourth history passes NULL wherever an out-pointer is optional
+        out = [[op + " noout=1" if op.split()[0] in NOOUT_OPS else op for op in h] if i % 4 == 1 else h for i, h in enumerate(out)]
         srng = random.Random(20240)
         out = [self.sparsify(srng, h) if i % 3 == 2 else h for i, h in enumerate(out)]
         return out
